@@ -224,11 +224,17 @@ def expected_machine(Y, O, E, link):
     ], key=str)
 
 
-def c12(ctx, res, with_drops=True):
+def c12(ctx, res, with_drops=True, only=None):
     r = ctx.roles
     te = _te(ctx, True)
     curs = cursor_adts(ctx)
-    res.floor("C12 cursor iterator types", len(curs), 2)
+    if only is not None:
+        # another property borrows the step rules for some of the iterator types only (C06: the copy-out iterators, where an entry
+        # yielded twice is an entry dropped twice)
+        curs = [(a, e) for (a, e) in curs if a in only]
+        res.floor("C12 cursor iterator types that copy entries out", len(curs), 1)
+    else:
+        res.floor("C12 cursor iterator types", len(curs), 2)
     machines = {}
     for (adt, eps) in curs:
         for (trait, m) in (("std::iter::Iterator", "next"), ("std::iter::DoubleEndedIterator", "next_back")):
@@ -284,7 +290,8 @@ def c12(ctx, res, with_drops=True):
                 #  is judged through the constructor that calls it)
                 check_cursor_ctor(ctx, res, b, adt, front, back)
     # wrappers delegate direction and project the right component
-    check_wrappers(ctx, res, [a for a, _ in curs])
+    if only is None:
+        check_wrappers(ctx, res, [a for a, _ in curs])
     # owning iterators: Drop exhausts, then clears without dropping
     if with_drops:
         check_owning_drops(ctx, res, "C12")
@@ -512,7 +519,18 @@ def check_owning_drops(ctx, res, prop):
         n += 1
         res.count("%s.3 owning iterator drops" % prop)
         why = _drop_discipline_probs(ctx, db)
-        if why:
+        if not why:
+            # the raw body shows only the swaps it performs itself: a table handed back to the cache by a private helper (before the
+            # remaining entries were taken out / before it was marked empty) is visible in the view with the helpers inlined
+            from ..inline import derive
+            prims = _named_primitives(ctx)
+            IT = ("std::iter::Iterator", "std::iter::DoubleEndedIterator")
+            db2, inl = derive(ctx, db, lambda tg: tg.path not in prims and not tg.is_closure and tg.impl_trait not in IT, depth=2)
+            if inl:
+                why = [w for w in _drop_discipline_probs(ctx, db2) if "handed to the cache" in w]
+                if why:
+                    res.note("%s.3 `Drop for %s`: table hand-back judged with %s inlined" % (prop, adt, ", ".join(x.split("::")[-1] for x in inl)))
+        elif why:
             # the exhausting loop may live in a private helper: judge Drop with its helpers (but not the iterator steps) inlined
             from ..inline import derive
             prims = _named_primitives(ctx)
@@ -1219,6 +1237,22 @@ def c06(ctx, res):
     okf = all(x == (drop_b.path if drop_b else None) for x in callers)
     res.oblige("C06.4 the seal is freed only from the cache's Drop", okf, detail=callers, key="C06.4:seal-freed-elsewhere",
                rule="C06.4 seal lifecycle", msg="the seal-freeing primitive is called from %s" % callers)
+    # ---- 6. a live entry's key/value slot is never overwritten in place
+    nm_ = 0
+    for b in ctx.facts.bodies:
+        if b.file.endswith("mem_size.rs") or "#inl" in b.path:
+            continue
+        probs, n = slot_overwrites(ctx, b)
+        nm_ += n
+        for (bb, sl, why) in probs:
+            res.violate("C06.6:%s:slot-overwrite:%s" % (b.path, sl),
+                        "in `%s` the `%s` slot of an entry behind a pointer or reference is %s: `MaybeUninit` has no drop glue, so the "
+                        "previous content is neither dropped nor handed back" % (b.path, sl, why),
+                        b.loc(bb), {"bb": bb, "slot": sl}, "C06.6 no in-place overwrite of a live slot")
+    res.count("C06.6 key/value slot borrows and stores through a pointer or reference", nm_)
+    res.floor("C06.6 key/value slot borrows and stores through a pointer or reference", nm_, 1)
+    res.oblige("C06.6 no body overwrites the key or value slot of an entry behind a pointer or reference without taking the previous content out "
+               "first (%d slot borrows/stores inspected)" % nm_, not any(v.key.startswith("C06.6:") for v in res.violations), key="C06.6:summary")
     # ---- 5. clone duplicates through Clone
     for b in ctx.facts.bodies:
         if b.kind == "assoc_fn" and b.name == "clone" and b.impl_self and b.impl_self.get("name") == r.entry and not b.impl_trait:
@@ -1241,6 +1275,111 @@ def c06(ctx, res):
             res.oblige("C06.5 Entry::clone builds key and value with Clone::clone on the source's slots (no bitwise duplication) and copies the size",
                        good, detail=why, key="C06.5:entry-clone", loc=span_str(b.span), rule="C06.5 clone through Clone",
                        msg="Entry::clone: %s" % "; ".join(why))
+
+
+def slot_overwrites(ctx, b):
+    """C06.6: stores that overwrite the key/value slot (a `MaybeUninit` field) of an entry that lives behind a pointer or reference.
+    Returns (problems, number of slot mentions seen).  `MaybeUninit` has no drop glue, so whatever the slot held is neither
+    dropped nor handed back unless it is read out (`mem::replace(..).assume_init()`) or dropped in place first."""
+    r = ctx.roles
+    slots = (r.E_KEY, r.E_VAL)
+
+    def slot_of(place, refs):
+        pr = place["p"]
+        if pr and pr[-1]["k"] == "field" and pr[-1].get("n") in slots and str(place.get("ty", "")).startswith("std::mem::MaybeUninit<") \
+                and any(e["k"] == "deref" for e in pr[:-1]):
+            return pr[-1]["n"]
+        if len(pr) == 1 and pr[0]["k"] == "deref" and place["l"] in refs:
+            return refs[place["l"]]
+        return None
+
+    refs, ptrs = {}, {}          # local -> slot name: `&mut slot` (also reborrowed / moved), `*mut` to the slot's content
+    mentions = 0
+    changed = True
+    rounds = 0
+    while changed and rounds < 6:
+        changed = False
+        rounds += 1
+        for blk in b.blocks:
+            for st in blk["stmts"]:
+                if st["k"] != "assign" or st["place"]["p"]:
+                    continue
+                rv, d = st["rv"], st["place"]["l"]
+                sl = None
+                if rv["k"] in ("ref", "rawptr") and rv.get("mut"):
+                    sl = slot_of(rv["place"], refs)
+                    tgt = refs if rv["k"] == "ref" else ptrs
+                elif rv["k"] in ("use", "cast") and rv["op"]["k"] in ("copy", "move") and not rv["op"]["place"]["p"]:
+                    src = rv["op"]["place"]["l"]
+                    if src in refs:
+                        sl, tgt = refs[src], (refs if rv["k"] == "use" else ptrs)
+                    elif src in ptrs:
+                        sl, tgt = ptrs[src], ptrs
+                if sl is not None and tgt.get(d) != sl:
+                    tgt[d] = sl
+                    changed = True
+            t = blk["term"]
+            if t["k"] == "call" and not t["dest"]["p"] and t["func"]["k"] == "const" and "fn" in t["func"]["c"]:
+                nn = norm(t["func"]["c"]["fn"]["full"])
+                a0 = t["args"][0] if t["args"] else None
+                if a0 and a0["k"] in ("copy", "move") and not a0["place"]["p"] and a0["place"]["l"] in refs and \
+                        nn in ("std::mem::MaybeUninit::as_mut_ptr", "std::mem::MaybeUninit::as_ptr"):
+                    if ptrs.get(t["dest"]["l"]) != refs[a0["place"]["l"]]:
+                        ptrs[t["dest"]["l"]] = refs[a0["place"]["l"]]
+                        changed = True
+    g = cfg_of(b)
+    consumed = {}       # slot -> [bb] where its content is dropped in place / read out
+    replaced = []       # (bb, slot, dest local) of mem::replace on a slot
+    inits = set()       # locals consumed by assume_init
+    writes = []         # (bb, slot, how)
+    for bi, blk in enumerate(b.blocks):
+        if blk.get("cleanup"):
+            continue
+        for st in blk["stmts"]:
+            if st["k"] != "assign":
+                continue
+            sl = slot_of(st["place"], refs)
+            if sl is not None:
+                mentions += 1
+                writes.append((bi, sl, "assignment"))
+            rv = st["rv"]
+            if rv["k"] in ("ref", "rawptr") and slot_of(rv["place"], refs) is not None:
+                mentions += 1
+        t = blk["term"]
+        if t["k"] != "call" or t["func"]["k"] != "const" or "fn" not in t["func"]["c"]:
+            continue
+        nn = norm(t["func"]["c"]["fn"]["full"])
+        al = [a["place"]["l"] if a["k"] in ("copy", "move") and not a["place"]["p"] else None for a in t["args"]]
+        a0 = al[0] if al else None
+        dest = t["dest"]["l"] if not t["dest"]["p"] else None
+        if nn == "std::mem::MaybeUninit::assume_init" and a0 is not None:
+            inits.add(a0)
+        if a0 in ptrs and nn in ("std::ptr::drop_in_place", "std::ptr::read", "std::ptr::mut_ptr::read", "std::ptr::const_ptr::read"):
+            consumed.setdefault(ptrs[a0], []).append(bi)
+        if a0 in refs and nn in ("std::mem::MaybeUninit::assume_init_drop", "std::mem::MaybeUninit::assume_init_read"):
+            consumed.setdefault(refs[a0], []).append(bi)
+        if a0 in refs and nn == "std::mem::replace":
+            replaced.append((bi, refs[a0], dest))
+        elif a0 in refs and nn in ("std::mem::MaybeUninit::write", "std::mem::take", "std::mem::swap"):
+            writes.append((bi, refs[a0], nn.split("::")[-1]))
+        elif len(al) > 1 and al[1] in refs and nn == "std::mem::swap":
+            writes.append((bi, refs[al[1]], "swap"))
+        elif a0 in ptrs and nn in ("std::ptr::write", "std::ptr::mut_ptr::write", "std::ptr::write_unaligned", "std::ptr::write_bytes",
+                                   "std::ptr::mut_ptr::write_bytes", "std::ptr::mut_ptr::replace", "std::ptr::replace", "std::ptr::swap",
+                                   "std::ptr::mut_ptr::swap"):
+            writes.append((bi, ptrs[a0], nn.split("::")[-1]))
+        elif len(al) > 1 and al[1] in ptrs and nn in ("std::ptr::copy", "std::ptr::copy_nonoverlapping", "std::ptr::swap",
+                                                      "std::ptr::const_ptr::copy_to", "std::ptr::const_ptr::copy_to_nonoverlapping",
+                                                      "std::ptr::mut_ptr::copy_to", "std::ptr::mut_ptr::copy_to_nonoverlapping"):
+            writes.append((bi, ptrs[al[1]], nn.split("::")[-1]))
+    probs = []
+    for (bi, sl, dest) in replaced:
+        if dest is None or dest not in inits:
+            probs.append((bi, sl, "replaced through mem::replace and the previous content is not taken out with assume_init"))
+    for (bi, sl, how) in writes:
+        if not any(cb == bi or g.dominates(cb, bi) for cb in consumed.get(sl, [])):
+            probs.append((bi, sl, "overwritten (%s) while it may still hold an initialised %s" % (how, "key" if sl == r.E_KEY else "value")))
+    return probs, mentions
 
 
 # =====================================================================================================================
